@@ -226,4 +226,76 @@ end
 
 instance : MpdOps Float := ⟨Float.sqrt, Float.acos, Float.abs, fun a b => a < b⟩
 
+/-! ### closed forms of the symmetric 2×2 eigen-problem (depth round: the `np.linalg.eigvals`
+    step of `gen.MPC` and the `np.linalg.svd` step of `gen.MPD` without parameters)
+
+`gen.MPC` asks LAPACK for the eigenvalues of the 2×2 covariance, `gen.MPD` for the second right
+singular vector of the `n×2` matrix `[Re φ, Im φ]`, i.e. the eigenvector of the 2×2 Gram matrix
+`[Re, Im]ᵀ[Re, Im]` for its smaller eigenvalue.  Both have closed forms through one square
+root; the definitions below take the square root from `MpdOps` (driver: IEEE `sqrt`,
+theorems: `Real.sqrt`), so that the whole of `gen.MPD` runs in the driver with nothing recorded. -/
+
+section closed2
+variable {K : Type} [Zero K] [One K] [Add K] [Sub K] [Mul K] [Div K]
+
+/-- discriminant `(a − d)² + 4b²` of `[[a, b], [b, d]]` (`4` spelled `(1+1)·(1+1)`: exact in
+    binary floating point as well) -/
+def Sym2.disc (S : Sym2 K) : K :=
+  (S.a - S.d) * (S.a - S.d) + ((1 + 1) * (1 + 1)) * (S.b * S.b)
+
+/-- the two eigenvalues `((a + d) ± s) / 2` of `[[a, b], [b, d]]`, larger first, given the
+    square root function -/
+def Sym2.eigvals (sqrt : K → K) (S : Sym2 K) : K × K :=
+  let s := sqrt S.disc
+  ((S.a + S.d + s) / (1 + 1), (S.a + S.d - s) / (1 + 1))
+
+variable [Neg K]
+
+/-- the Gram matrix `[Re φ, Im φ]ᵀ [Re φ, Im φ]` -/
+def gram2 (n : Nat) (φ : Nat → Cx K) : Sym2 K :=
+  ⟨sumTo n fun k => (φ k).re * (φ k).re,
+   sumTo n fun k => (φ k).re * (φ k).im,
+   sumTo n fun k => (φ k).im * (φ k).im⟩
+
+variable [MpdOps K]
+
+/-- an eigenvector of `[[a, b], [b, d]]` for its smaller eigenvalue `μ = (a + d − s)/2`,
+    `s = √disc`: `(b, μ − a)` when `a > d`, else `(μ − d, b)` (the variant without
+    cancellation: `μ − a = (d − a − s)/2`, `μ − d = (a − d − s)/2`); at an exact tie
+    (`s = 0`: the matrix is a multiple of the identity, every direction is an eigenvector)
+    `(0, 1)`.  Never the zero vector. -/
+def Sym2.minorDir (S : Sym2 K) : K × K :=
+  let s := MpdOps.sqrt S.disc
+  if MpdOps.lt S.d S.a then (S.b, (S.d - S.a - s) / (1 + 1))
+  else if MpdOps.lt 0 s then ((S.a - S.d - s) / (1 + 1), S.b)
+  else (0, 1)
+
+/-- `gen.MPD` (repaired) as an `Option`: `none` is the `0/0 = NaN` of `np.sum(w[nz]) = 0`
+    (the weights are moduli, so the sum is `0` exactly when it is not positive). -/
+def mpd? (n : Nat) (φ : Nat → Cx K) (v01 v11 : K) : Option K :=
+  let w : Nat → K := fun k => MpdOps.sqrt (Cx.normSq (φ k))
+  let vn : K := MpdOps.sqrt (v01 * v01 + v11 * v11)
+  let nz : Nat → Bool := fun k => MpdOps.lt 0 (vn * w k)
+  if MpdOps.lt 0 (sumTo n fun k => if nz k then w k else 0) then some (mpd n φ v01 v11) else none
+
+/-- `gen.MPD` with the SVD step in closed form: the direction `V[:, 1]` is the minor
+    direction of the Gram matrix (up to length and sign, which `mpd` does not see). -/
+def mpdClosed (n : Nat) (φ : Nat → Cx K) : K :=
+  mpd n φ (gram2 n φ).minorDir.1 (gram2 n φ).minorDir.2
+
+/-- the same as an `Option` (`none` = NaN) -/
+def mpdClosed? (n : Nat) (φ : Nat → Cx K) : Option K :=
+  mpd? n φ (gram2 n φ).minorDir.1 (gram2 n φ).minorDir.2
+
+end closed2
+
+section mpceig
+variable {K : Type} [Zero K] [One K] [Add K] [Sub K] [Mul K] [Neg K] [Div K] [DecidableEq K] [NatCast K]
+
+/-- `gen.MPC` with the eigenvalue step in closed form (`sqrt` a parameter function) -/
+def mpcEig? (sqrt : K → K) (n : Nat) (φ : Nat → Cx K) : Option K :=
+  mpc? n φ ((cov2 n φ).eigvals sqrt).1 ((cov2 n φ).eigvals sqrt).2
+
+end mpceig
+
 end PV
